@@ -9,7 +9,7 @@ PID = 'C05'
 STATS = G.STATS
 PARTIAL = [
     "the model of helpers.knot_refinement is specification-level (the knots X inserted one at a time with the proved A5.1 model); that A5.4 as coded returns the same control points is checked by the exact correspondence, not proved",
-    "curves and surfaces (helper level, refineDir in u and v, refine_knotvector on any subset of a surface's directions) are proved end-to-end under explicit hypotheses: well-formed object, knot vector clamped at the END of the refined direction, 0 <= tol and tolerance separation of the old knots and the bisection knots (equal or further apart than tol); volumes (mapVol) are not lifted - for them only the untouched-directions theorem (refineKnotvector_unselected) is proved, shape preservation is oracle + correspondence",
+    "curves, surfaces and volumes (helper level; refineDir in every direction of a surface / volume; refine_knotvector on any subset of the two / three directions: refineKnotvector_preserves_surface, refineDir_preserves_volume, refineKnotvector_preserves_volume) are proved end-to-end under explicit hypotheses: well-formed object (CurveWF / SurfWF / VolWF), knot vector clamped at the END of each refined direction, 0 <= tol and tolerance separation of the old knots and the bisection knots of each refined direction (equal or further apart than tol), all stated on the ORIGINAL object",
     "rational objects: the theorems are about the homogeneous net (coordinatewise); the projection step is C01/C09's",
 ]
 
